@@ -36,12 +36,34 @@ type ImplBlockTemplate struct {
 	UserDefinedCapabilities ImplBlockCapabilities
 }
 
+func (self ImplBlockTemplate) String() string {
+	if !self.UserDefinedCapabilities.Defined {
+		return self.Template.String()
+	}
+
+	capabilities := make([]string, 0)
+	for _, capability := range self.UserDefinedCapabilities.List {
+		capabilities = append(capabilities, capability.String())
+	}
+
+	return fmt.Sprintf("%s with { %s }", self.Template, strings.Join(capabilities, ", "))
+}
+
 // Impl block
 type ImplBlock struct {
 	SingletonIdent SpannedIdent
 	UsingTemplate  ImplBlockTemplate
 	Methods        []FunctionDefinition
 	Span           errors.Span
+}
+
+func (self ImplBlock) String() string {
+	methods := make([]string, 0)
+	for _, method := range self.Methods {
+		methods = append(methods, strings.ReplaceAll(method.String(), "\n", "\n    "))
+	}
+
+	return fmt.Sprintf("impl %s for %s {\n    %s\n}", self.UsingTemplate, self.SingletonIdent, strings.Join(methods, "\n\n    "))
 }
 
 //
